@@ -194,7 +194,7 @@ func c17Oracle(name, in, out string) string {
 var reRemoveTag = regexp.MustCompile(`</?[bi]/?>`)
 
 func suiteC17(cfg Config, res *Result) {
-	res.Rule = "inputs: single runes of the BMP (every rune < 0x500 and a stride of the rest in quick; all in thorough), 256 single bytes, astral runes, all pairs and triples over & < > \" ' \\ / space % + # ; a ü 0xFF, random strings mixing specials, multi-byte runes, invalid UTF-8, existing entities and backslash sequences; each through ApplyFilter for escape e escapejs urlencode iriencode addslashes striptags safe (and removetags model-free); compared with the model and judged by the harness's own decoders; non-trivial = input containing a special or non-ASCII byte; distinct by (filter, input)"
+	res.Rule = "inputs: single runes of the BMP (every rune < 0x500 and a stride of the rest in quick; all in thorough), 256 single bytes, astral runes, all pairs and triples over & < > \" ' \\ / space % + # ; a ü 0xFF, random strings mixing specials, multi-byte runes, invalid UTF-8, existing entities and backslash sequences; each through ApplyFilter (a sample also as a value marked safe and as the result of a macro call) for escape e escapejs urlencode iriencode addslashes striptags safe (and removetags model-free); compared with the model and judged by the harness's own decoders; non-trivial = input containing a special or non-ASCII byte; distinct by (filter, input)"
 	rng := NewRNG(cfg.Seed)
 	var inputs []string
 	stride := 11
@@ -283,6 +283,26 @@ func suiteC17(cfg Config, res *Result) {
 					}
 				}
 				res.add(Finding{Kind: "oracle", Proj: "filter", Sig: sig, Case: hx(in), Impl: hx(out), Model: why})
+			}
+		}
+		// what a filter promises does not depend on the input being marked safe
+		if nt && len(seen)%5 == 0 {
+			for _, f := range c17Filters {
+				if f == "safe" {
+					continue
+				}
+				plain, e1 := pongo2.ApplyFilter(f, pongo2.AsValue(in), nil)
+				marked, e2 := pongo2.ApplyFilter(f, pongo2.AsSafeValue(in), nil)
+				if e1 != nil || e2 != nil {
+					continue
+				}
+				if plain.String() != marked.String() {
+					res.add(Finding{Kind: "oracle", Proj: "filter", Sig: "c17-" + f + "-on-safe-input", Case: hx(in), Impl: hx(marked.String()), Model: "the same as on the unmarked text: " + hx(plain.String())})
+				}
+				r := implRender("{% autoescape off %}{% macro mm() %}{{ v }}{% endmacro %}{{ mm()|"+f+" }}{% endautoescape %}", pongo2.Context{"v": in})
+				if r.Err == "" && !r.Panicked && r.Out != plain.String() {
+					res.add(Finding{Kind: "oracle", Proj: "filter", Sig: "c17-" + f + "-on-safe-input", Case: hx(in), Impl: r.String(), Model: "macro output through " + f + " = " + hx(plain.String())})
+				}
 			}
 		}
 		// removetags: model-free only
